@@ -283,7 +283,7 @@ func (e *TwoByteHeaderExtension) Del(id uint8) error {
 // Unmarshal parses the extension payload.
 func (e *TwoByteHeaderExtension) Unmarshal(buf []byte) (int, error) {
 	profile := binary.BigEndian.Uint16(buf[0:2])
-	if profile != headerExtensionProfileTwoByte {
+	if extensionForm(profile) != headerExtensionProfileTwoByte {
 		return 0, fmt.Errorf("%w actual(%x)", errHeaderExtensionNotFound, buf[0:2])
 	}
 	e.payload = buf
@@ -354,7 +354,7 @@ func (e *RawExtension) Del(id uint8) error {
 // Unmarshal parses the extension from the given buffer.
 func (e *RawExtension) Unmarshal(buf []byte) (int, error) {
 	profile := binary.BigEndian.Uint16(buf[0:2])
-	if profile == headerExtensionProfileOneByte || profile == headerExtensionProfileTwoByte {
+	if profile == headerExtensionProfileOneByte || extensionForm(profile) == headerExtensionProfileTwoByte {
 		return 0, fmt.Errorf("%w actual(%x)", errHeaderExtensionNotFound, buf[0:2])
 	}
 	e.payload = buf
